@@ -487,6 +487,26 @@ pub fn run_c13(tier: Tier, seed: u64, index: u64, scratch: &Scratch, rec: &mut R
                 t.root.files.push(nf);
             }
             t.labels.push("SURPLUS-DIFFERING".into());
+            // a stray link among them: validly signed by a key the layout defines but does not authorize
+            // for this step (or by a stranger), filed under that key's own prefix
+            if fr.chance(1, 3) {
+                let k = {
+                    let ks = crate::keys::draw_keys(&mut fr, 1, ed_only, false)[0];
+                    t.keys.push(ks);
+                    t.keys.len() - 1
+                };
+                if fr.chance(2, 3) {
+                    t.root.layout.key_table.push(k);
+                }
+                let mut nf = tpl.clone();
+                nf.name = gen::link_name(&sname, &t.keys, k);
+                nf.doc.signers = vec![k];
+                if let crate::world::Body::Link(l) = &mut nf.body {
+                    l.products.insert("stray".into(), gen::digest_of(5_000_900, false));
+                }
+                t.root.files.push(nf);
+                t.labels.push("STRAY-LINK".into());
+            }
         } else if shape == 3 {
             t.labels.push("PLAIN".into());
         } else if shape == 4 {
